@@ -161,6 +161,31 @@ class _Inliner(object):
                 for sub in st.body:      # a method added to a known class
                     if isinstance(sub, ast.FunctionDef) and ("%s.%s" % (st.name, sub.name)) not in known:
                         self._add((st.name, sub.name), sub)
+        self._add_nested(tree)
+
+    def _add_nested(self, tree):
+        """a function defined directly in the body of another one and only called there (a local closure used as a helper)"""
+        taken = {}
+        for n in ast.walk(tree):
+            if isinstance(n, (ast.FunctionDef, ast.ClassDef)):
+                taken[n.name] = taken.get(n.name, 0) + 1
+            elif isinstance(n, ast.Name) and isinstance(n.ctx, (ast.Store, ast.Del)):
+                taken[n.id] = taken.get(n.id, 0) + 1
+            elif isinstance(n, ast.arg):
+                taken[n.arg] = taken.get(n.arg, 0) + 1
+        self.nested = {}
+        for outer in [n for n in ast.walk(tree) if isinstance(n, ast.FunctionDef)]:
+            for st in outer.body:
+                if isinstance(st, ast.FunctionDef) and taken.get(st.name, 0) == 1 and ("", st.name) not in self.helpers:
+                    # every use of the name is a direct call inside the enclosing function
+                    uses = [n for n in ast.walk(tree) if isinstance(n, ast.Name) and n.id == st.name and isinstance(n.ctx, ast.Load)]
+                    calls = [n for n in ast.walk(outer) if isinstance(n, ast.Call) and isinstance(n.func, ast.Name) and n.func.id == st.name]
+                    if not uses or len(uses) != len(calls) or any(isinstance(x, (ast.Nonlocal, ast.Global)) for x in ast.walk(st)):
+                        continue
+                    before = len(self.helpers)
+                    self._add(("", st.name), st)
+                    if len(self.helpers) > before:
+                        self.nested[("", st.name)] = outer
 
     def _add(self, key, fn):
         decos = [ast.unparse(d) for d in fn.decorator_list]
@@ -457,6 +482,17 @@ class _Inliner(object):
         for key, fn in list(self.helpers.items()):
             if self.expanded.get(key) and not self.left.get(key):
                 cls, name = key
+                if key in getattr(self, "nested", {}):
+                    outer = self.nested[key]
+                    if fn in outer.body:
+                        outer.body.remove(fn)
+                        if still_called(key):
+                            outer.body.insert(0, fn)
+                        else:
+                            removed.append(key)
+                            if not outer.body:
+                                outer.body.append(ast.Pass())
+                    continue
                 if cls == "":
                     self.tree.body.remove(fn)
                     if not still_called(key):
@@ -809,6 +845,12 @@ def _propagate_in_function(fn, final):
                 return False
             ok_value = (_final_chain(v) and "self" in params and stores.get("self", 0) == 0) or \
                        (isinstance(v, ast.Name) and v.id in params and stores.get(v.id, 0) == 0)
+            # `add = items.append` for a local `items` bound once: a bound-method alias, only ever called
+            if not ok_value and isinstance(v, ast.Attribute) and isinstance(v.value, ast.Name) and v.value.id not in params and \
+                    stores.get(v.value.id, 0) == 1 and stores.get(a, 0) == 1:
+                uses_ = [n_ for b in fn.body for n_ in ast.walk(b) if isinstance(n_, ast.Name) and n_.id == a and isinstance(n_.ctx, ast.Load)]
+                calls_ = [n_ for b in fn.body for n_ in ast.walk(b) if isinstance(n_, ast.Call) and isinstance(n_.func, ast.Name) and n_.func.id == a]
+                ok_value = bool(uses_) and len(uses_) == len(calls_)
             # `t = (x, y)` used only as `*t` in calls: the elements are passed directly
             if isinstance(v, ast.Tuple) and all(_simple(x) for x in v.elts) and stores.get(a, 0) == 1 and a not in params and \
                     not any(stores.get(n_.id, 0) for x in v.elts for n_ in ast.walk(x) if isinstance(n_, ast.Name) and n_.id not in params):
@@ -1002,7 +1044,8 @@ class _Qualify(ast.NodeTransformer):
 
     def visit_Name(self, node):
         if isinstance(node.ctx, ast.Load) and node.id in self.names and node.id not in self.local:
-            return ast.copy_location(ast.Attribute(value=ast.Name(id=self.alias, ctx=ast.Load()), attr=node.id, ctx=ast.Load()), node)
+            base = copy.deepcopy(self.alias) if isinstance(self.alias, ast.AST) else ast.Name(id=self.alias, ctx=ast.Load())
+            return ast.copy_location(ast.Attribute(value=base, attr=node.id, ctx=ast.Load()), node)
         return node
 
 
@@ -1014,14 +1057,22 @@ def import_foreign_helpers(trees):
     done = {}
     for mname, tree in trees.items():
         aliases = _module_aliases(tree)
-        if not aliases:
+        pkg_imported = any(isinstance(st, ast.Import) and any(al.name.split(".")[0] == PKG_NAME and not al.asname for al in st.names)
+                           for st in ast.walk(tree))
+        if not aliases and not pkg_imported:
             continue
         copies = {}
         for call in [n for n in ast.walk(tree) if isinstance(n, ast.Call)]:
             f = call.func
-            if not (isinstance(f, ast.Attribute) and isinstance(f.value, ast.Name) and f.value.id in aliases):
+            if not isinstance(f, ast.Attribute):
                 continue
-            src_mod = aliases[f.value.id]
+            if isinstance(f.value, ast.Name) and f.value.id in aliases:
+                src_mod = aliases[f.value.id]
+            elif pkg_imported and isinstance(f.value, ast.Attribute) and isinstance(f.value.value, ast.Name) and f.value.value.id == PKG_NAME \
+                    and f.value.attr in trees:
+                src_mod = f.value.attr          # jsonrpclib.<module>.h(...)
+            else:
+                continue
             if src_mod == mname or src_mod not in trees or f.attr in known.get(src_mod, set()):
                 continue
             fn = next((st for st in trees[src_mod].body if isinstance(st, ast.FunctionDef) and st.name == f.attr), None)
@@ -1037,8 +1088,8 @@ def import_foreign_helpers(trees):
                         local.add(n.name)
                 cp = copy.deepcopy(fn)
                 cp.name = new_name
-                cp.body = [_Qualify(_top_level_bindings(trees[src_mod]), f.value.id, local).visit(st) for st in cp.body]
-                cp.args.defaults = [_Qualify(_top_level_bindings(trees[src_mod]), f.value.id, set()).visit(d) for d in cp.args.defaults]
+                cp.body = [_Qualify(_top_level_bindings(trees[src_mod]), f.value, local).visit(st) for st in cp.body]
+                cp.args.defaults = [_Qualify(_top_level_bindings(trees[src_mod]), f.value, set()).visit(d) for d in cp.args.defaults]
                 ast.fix_missing_locations(cp)
                 copies[new_name] = cp
             call.func = ast.copy_location(ast.Name(id=new_name, ctx=ast.Load()), f)
